@@ -37,4 +37,15 @@ var checks = map[string]check{
 		Rule:   "histories of 1-5 Feed calls of 0-6 items (named file / unnamed patch / named patch) over names {a.go, a_1.go, a_2.go, d/a.go, b} followed by BuildResponse, judged against an independent reference model of the documented assembly rules; non-trivial = not loose, has a rename and an asserted patch on a file fed earlier than the renamed one, distinct by hash of the history",
 		Assume: []string{"fresh names of renamed files and output order are not asserted, only uniqueness and intact content", "named patches aimed at a contested, unowned or not-yet-fed name are the code's documented FIXME: only the invariants are asserted for those histories", "patch contents never contain markers"},
 	},
+	"C20": {
+		ID: "C20", Pkg: "c20", NeedBin: true,
+		Jobs: []job{
+			{Run: "^TestDocs$", Quick: 1, QShards: 1, Thor: 1, TShards: 1},
+			{Run: "^TestExhaustive$", Quick: 1, QShards: 1, Thor: 1, TShards: 1},
+			{Run: "^TestRandomLists$", Quick: 5000, QShards: 2, Thor: 100000, TShards: 8},
+			{Run: "^TestBinary$", Quick: 60, QShards: 2, Thor: 400, TShards: 6},
+		},
+		Rule:   "exhaustive: every option in every accepted/rejected form alone, all ordered pairs of assignments, triples around every prefix-related name pair (computed from the option list), each through CodeUtils.HandleOptions and through args.Targets()+Pack; random: rapid lists of 3-12 assignments; binary: invalid values must fail the thriftgo binary; oracle = fold of the assignments over the documented defaults plus the documented implications; non-trivial = list contains two options where one name is a prefix of the other, or the same option twice with different values, distinct by mode and option list",
+		Assume: []string{"README option table, -h text and the tags of golang.Features are the sources of truth and are cross-checked first", "combinations the README is ambiguous about (with_field_mask without with_reflection, streamx without thrift_streaming, both json tag styles) are not asserted either way", "unknown option names are never generated"},
+	},
 }
